@@ -242,13 +242,13 @@ def _load():
     faulty = profile(f_zero=0.8, f_infarr=0.3, f_batch0=0.8, qcap=0.7, sched=0.35, renege=0.4, batch=0.4)
     # C01's own clauses hold on the unchanged tree inside the regions of the open findings too (an engine crash there is
     # C14's matter), so C01 explores them: a third of its runs are generated without any sanitising
-    register(Profile("C01", [C01, Ref], [(1, core), (2, wide), (1, faulty), (1, dict(faulty, rules=(), jockey=0.6, sched=0.4, qcap=0.8))],
-                     "runs generated swarm-style from sub(VERIF_SEED,'C01',tier,i); distinct = distinct history digest "
-                     "(events+micro-events+samples+draws+records); non-trivial = >=1 transfer between service nodes and >=1 exit",
-                     B(40000, 500000)))
     # a custom service discipline that lets customers linger beside a free server (valid use of the documented hook): waiting
     # customers exist while servers are free, which the built-in disciplines never produce
     LINGER = dict(disc=0.6, disc_opts=["FIFO", "LIFO", "SIRO", "LINGER", "LINGER"])
+    register(Profile("C01", [C01, Ref], [(2, core), (4, wide), (2, faulty), (2, dict(faulty, rules=(), jockey=0.6, sched=0.4, qcap=0.8)), (1, dict(wide, **LINGER))],
+                     "runs generated swarm-style from sub(VERIF_SEED,'C01',tier,i); distinct = distinct history digest "
+                     "(events+micro-events+samples+draws+records); non-trivial = >=1 transfer between service nodes and >=1 exit",
+                     B(40000, 500000)))
     register(Profile("C02", [C02], [(4, wide), (2, faulty), (1, dict(wide, renege=0.7, **LINGER))],
                      "distinct history digest; non-trivial = >=1 tie (two consecutive events at one date) and records of >=2 types",
                      B(40000, 500000)))
@@ -260,14 +260,16 @@ def _load():
 
     NOREROUTE = dict(preempt_opts=[False, "resume", "restart", "resample"],
                      sched_pre_opts=[False, False, "resume", "restart", "resample"])
-    register(Profile("C03", [C03, Ref], [(1, core), (2, wide), (1, faulty), (1, profile(prio=0.8, preempt=0.8, sched=0.4, renege=0.5, jockey=0.6, qcap=0.6)), (1, kfa)],
+    register(Profile("C03", [C03, Ref], [(2, core), (4, wide), (2, faulty), (2, profile(prio=0.8, preempt=0.8, sched=0.4, renege=0.5, jockey=0.6, qcap=0.6)), (2, kfa),
+                                         (1, dict(wide, **LINGER))],
                      "distinct history digest; non-trivial = >=1 customer with >=2 records",
                      B(40000, 500000)))
     NOREROUTE = dict(preempt_opts=[False, "resume", "restart", "resample"],
                      sched_pre_opts=[False, False, "resume", "restart", "resample"])
     srv = profile(ordinary_only=True, inf=0.0, zero=0.0, sched=0.35, qcap=0.6, renege=0.3, n=[1, 2, 2, 3], ps=0.0, slot=0.0)
-    register(Profile("C04", [C04], [(2, srv), (1, profile(ordinary_only=True, inf=0.0, sched=0.5, preempt=0.0, qcap=0.7,
-                                                          sched_pre_opts=[False], n=[1, 2, 3], splits=3, plan={"time": 1.0}))],
+    register(Profile("C04", [C04], [(4, srv), (2, profile(ordinary_only=True, inf=0.0, sched=0.5, preempt=0.0, qcap=0.7,
+                                                          sched_pre_opts=[False], n=[1, 2, 3], splits=3, plan={"time": 1.0})),
+                                    (1, dict(srv, **LINGER))],
                      "distinct history digest; non-trivial = some server served >=2 customers and some customer was blocked while holding its server",
                      B(40000, 400000)))
     register(Profile("C05", [C05, Ref], [(1, core), (2, srv), (1, profile(ordinary_only=True, sched=0.5, prio=0.8, preempt=0.7, renege=0.5, cct=0.3, n=[1, 2, 3])),
@@ -284,7 +286,7 @@ def _load():
     rout = profile(n=[2, 2, 3, 4], route_kinds={"matrix": 0.25, "net": 0.45, "pb": 0.15, "fpb": 0.15}, ccm=0.4, cct=0.1, qcap=0.3,
                    jockey=0.0, ps=0.05, slot=0.05)      # pre-emptive reroutes are transitions too (checked like any other)
     rout_b = dict(rout, f_boundary=0.05)
-    register(Profile("C09", [C09, Ref], [(1, core), (2, rout), (1, rout_b)],
+    register(Profile("C09", [C09, Ref], [(2, core), (4, rout), (2, rout_b), (1, dict(rout, **LINGER))],
                      "distinct history digest; non-trivial = >=1 routing decision checked (per-router-kind and unequal-queue JSQ/LB decision counters reported)",
                      B(40000, 400000)))
     samp = profile(preempt=0.0, sched_pre_opts=[False], np_samples=0.15, sdep=0.3, tdep=0.5, batch=0.5, exact=0.15, n=[1, 2, 2, 3], slot=0.1, ps=0.05)
@@ -319,7 +321,7 @@ def _load():
                      "distinct history digest; non-trivial = >=1 renege or >=1 baulking decision with 0 < p < 1",
                      B(40000, 400000)))
     trk = profile(tracker=1.0, qcap=0.6, ccm=0.4, cct=0.25, renege=0.3, preempt=0.4, n=[1, 2, 2, 3], k=[1, 2, 2, 3], exact=0.05)
-    register(Profile("C17", [C17], [(1, trk)],
+    register(Profile("C17", [C17], [(7, trk), (1, dict(trk, **LINGER))],
                      "distinct history digest; non-trivial = >=5 changes of the true tracked state (blocking trackers: and >=1 blockage)",
                      B(40000, 400000)))
     dl = profile(restricted=True, n=[1, 2, 2, 3, 3], k=[1, 1, 2], prio=0.4, preempt=0.0, sched=0.0, renege=0.0, cct=0.0, ccm=0.2, batch=0.2,
@@ -358,7 +360,7 @@ def _load():
                      "continuous sub-profile: exact run vs floating-point twin within 10^-(k-3)",
                      B(20000, 200000), post=keep_cont, runner=run_c20))
     cap = profile(qcap=0.9, qcap_vals=[INF, 0, 0, 1, 2, 3], syscap=0.4, batch=0.5, baulk=0.4, renege=0.3, jockey=0.5, n=[1, 2, 2, 3], **NOREROUTE)
-    register(Profile("C06", [C06, Ref], [(1, dict(core, qcap=0.95, syscap=0.4, batch=0.5)), (1, cap)],
+    register(Profile("C06", [C06, Ref], [(4, dict(core, qcap=0.95, syscap=0.4, batch=0.5)), (4, cap), (1, dict(cap, **LINGER))],
                      "distinct history digest; non-trivial = >=1 rejection and >=1 admission into a node holding capacity-1",
                      B(40000, 400000)))
     blk = profile(restricted=True, n=[2, 2, 3, 4], k=[1, 1, 2], preempt=0.0, sched=0.15, sched_pre_opts=[False], renege=0.1,
@@ -366,7 +368,7 @@ def _load():
                   route_kinds={"matrix": 0.5, "net": 0.4, "pb": 0.1, "fpb": 0.0})
     # pre-emptive priorities are not excluded by C07's quantifier; blocked customers must keep their server there too
     blk_pre = dict(blk, prio=0.9, preempt=0.9, k=[2, 2, 3], preempt_opts=["resume", "restart", "resample", "reroute", False])
-    register(Profile("C07", [C07, Ref], [(1, dict(core, qcap=1.0, n=[2, 2, 3, 4], qcap_vals=[0, 0, 1, 2, INF])), (3, blk), (1, blk_pre)],
+    register(Profile("C07", [C07, Ref], [(2, dict(core, qcap=1.0, n=[2, 2, 3, 4], qcap_vals=[0, 0, 1, 2, INF])), (6, blk), (2, blk_pre), (1, dict(blk, **LINGER))],
                      "distinct history digest; non-trivial = >=1 blocking and >=1 unblocking (cascade depth probes reported)",
                      B(30000, 300000)))
 
